@@ -6,6 +6,7 @@ import JP.Codec.Decode
 import JP.Codec.Stream
 import JP.Codec.TypedWire
 import JP.Codec.FloatDriver
+import JP.Codec.TypedDecodeDriver
 import JP.Heap.DriverHeap
 
 /-!
@@ -930,6 +931,7 @@ def handle1 (line : String) : String :=
   | "VALID" :: id :: args => handleValid id args
   | "ENTRY" :: id :: args => handleEntry id args
   | "SCAN" :: args => handleScan args
+  | "CODEC" :: id :: "typeddec" :: args => Codec.TDec.handleTypedDec id args
   | "CODEC" :: id :: "typed" :: args => Codec.Typed.handleTyped id args
   | "CODEC" :: id :: args => handleCodec id args
   | "STD" :: id :: args => handleStd id args
